@@ -36,7 +36,8 @@ from lib.core import Ctx, enc, rat
 from lib import stage
 
 ID = "C06"
-LEAN_TARGETS = ["AiuVerif.Props.C06"]
+NEEDS_GEN = True
+LEAN_TARGETS = ["AiuVerif.Props.C06", "AiuVerif.Props.Order"]
 THEOREMS = [
     "AiuVerif.C06.dur_eq_delta",
     "AiuVerif.C06.end_preserved",
@@ -49,6 +50,7 @@ THEOREMS = [
     "AiuVerif.C06.statement_midname_dma",
     "AiuVerif.C06.asserts_hold",
     "AiuVerif.C06.end_not_preserved_noncanonical",
+    "AiuVerif.Order.timesync_order",   # registration order / guards / shared context, re-decided on the generated sites
 ]
 RULE = ("streams of X slices for cycle_count_to_wallclock -> tighten_hts_by_instr_type: (i) exhaustive grid = 6 name "
         "classes (DmaI/Prep/Exec/DmaO suffix, keyword-free, SenRdma-style) x all 16 zero/non-zero patterns of the four "
